@@ -1,39 +1,417 @@
 /-
-  C03 — Wire decoder is crash-free, bounded and accepts exactly well-formed messages.
-  FIRST-CLAIM version (deeper theorems: soundness/completeness w.r.t. `WireName`, ID on every
-  error, pointer depth — are being added; see DESIGN §7 C03).
-  Totality / crash-freedom is by construction: `decodeMessage : List UInt8 → Except DErr Message`
-  is a total Lean function accepted by the kernel (structural + well-founded recursion, every
-  index discharged by the guard that precedes it in the Rust), for byte strings of any length.
+  C03 — The wire decoder accepts exactly the RFC 1035 grammar, reads it as the grammar says, and
+  every error it reports carries the header ID of the message being decoded.
+  Property theorems only; helper lemmas live in Proofs/WireDecodeLemmas.lean, the declarative
+  grammar (`WireName`, `WireNameDepth`, `NameWF`) in Spec/Wire.lean.
 -/
-import Resolved.Spec.Wire
+import Resolved.Proofs.WireDecodeLemmas
 
 namespace Resolved
 
-/-- Fewer than two octets: `CompletelyBusted` (no ID to answer with). -/
+open Gen
+
+/-! ## 1. Error IDs -/
+
+/-- A buffer shorter than the two ID octets is the only `CompletelyBusted` input … -/
 theorem C03_short_is_busted (buf : List UInt8) (h : buf.length < 2) :
     decodeMessage buf = .error .completelyBusted := by
-  unfold decodeMessage nextU16
-  have : ¬ buf.length > 0 + 1 := by omega
-  simp [this]
+  unfold decodeMessage
+  have : nextU16 buf 0 = none := by
+    unfold nextU16; rw [dif_neg (by omega)]
+  rw [this]
 
-/-- Every section is exactly as long as the header count says. -/
-theorem C03_many_length {α} (dec : Nat → Except DErr (α × Nat)) (k pos : Nat) (xs : List α) (e : Nat)
-    (h : decodeMany dec k pos = .ok (xs, e)) : xs.length = k := by
-  induction k generalizing pos xs e with
-  | zero => simp [decodeMany] at h; simp [h.1.symm]
-  | succ k ih =>
-    simp only [decodeMany] at h
-    split at h
-    · cases h
-    · split at h
-      · cases h
-      · rename_i _ x p' _ xs' e' h2
-        cases h
-        simp [ih _ _ _ h2]
+/-- … and every other decoding error carries the header ID, which is the big-endian value of the
+    first two octets of the buffer. -/
+theorem C03_id_on_error (buf : List UInt8) (e : DErr) (h : decodeMessage buf = .error e)
+    (h2 : 2 ≤ buf.length) :
+    e.id = some ((buf[0]'(by omega)).toNat * 256 + (buf[1]'(by omega)).toNat) := by
+  have hid : nextU16 buf 0 =
+      some ((buf[0]'(by omega)).toNat * 256 + (buf[1]'(by omega)).toNat, 2) := by
+    unfold nextU16; rw [dif_pos (by omega)]
+  exact decodeMessage_err_id_aux hid h
 
-/-- non-vacuity: a 12-octet header with no sections decodes. -/
-example : (decodeMessage [0x12, 0x34, 0x81, 0x80, 0, 0, 0, 0, 0, 0, 0, 0]).toOption.map (·.header.id) = some 0x1234 := by
+/-- Conversely an error without an ID can only come from a buffer of fewer than two octets. -/
+theorem C03_no_id_iff_short (buf : List UInt8) (e : DErr) (h : decodeMessage buf = .error e) :
+    e.id = none ↔ buf.length < 2 := by
+  constructor
+  · intro hnone
+    apply Classical.byContradiction
+    intro hlen
+    have := C03_id_on_error buf e h (by omega)
+    rw [hnone] at this
+    cases this
+  · intro hlen
+    rw [C03_short_is_busted buf hlen] at h
+    cases h
+    rfl
+
+/-- The component decoders only ever fail with the ID they were handed. -/
+theorem C03_component_error_ids (id : Nat) (buf : List UInt8) (pos : Nat) (e : DErr) :
+    (decodeName id buf pos = .error e → e.id = some id) ∧
+    (decodeQuestion id buf pos = .error e → e.id = some id) ∧
+    (decodeRR id buf pos = .error e → e.id = some id) :=
+  ⟨decodeName_err_id, decodeQuestion_err_id, decodeRR_err_id⟩
+
+/-- … including the name loop in any loop state (start offset, accumulated length and labels) … -/
+theorem C03_nameLoop_error_id (id : Nat) (buf : List UInt8) (start pos len : Nat)
+    (labels : List Label) (e : DErr)
+    (h : decodeNameLoop id buf start pos len labels = .error e) : e.id = some id :=
+  decodeNameLoop_err_id id buf start pos len labels e h
+
+/-- … the RDATA field decoders … -/
+theorem C03_fields_error_id (id : Nat) (buf : List UInt8) (rdlength : Nat) (fs : List Field)
+    (pos : Nat) (e : DErr) (h : decodeFields id buf rdlength fs pos = .error e) :
+    e.id = some id :=
+  decodeFields_err_id fs h
+
+/-- … and whole sections. -/
+theorem C03_section_error_id (id : Nat) (buf : List UInt8) (k pos : Nat) (e : DErr) :
+    (decodeMany (decodeQuestion id buf) k pos = .error e → e.id = some id) ∧
+    (decodeMany (decodeRR id buf) k pos = .error e → e.id = some id) :=
+  ⟨decodeMany_err_id (fun _ _ => decodeQuestion_err_id) k,
+   decodeMany_err_id (fun _ _ => decodeRR_err_id) k⟩
+
+/-! ## 2. Positions, section lengths, RDLENGTH -/
+
+/-- A successfully decoded name, question or record consumes at least one octet and ends inside
+    the buffer. -/
+theorem C03_positions_advance (id : Nat) (buf : List UInt8) (pos e : Nat) :
+    (∀ n, decodeName id buf pos = .ok (n, e) → pos < e ∧ e ≤ buf.length) ∧
+    (∀ q, decodeQuestion id buf pos = .ok (q, e) → pos < e ∧ e ≤ buf.length) ∧
+    (∀ rr, decodeRR id buf pos = .ok (rr, e) → pos < e ∧ e ≤ buf.length) :=
+  ⟨fun _ => decodeName_bounds, fun _ => decodeQuestion_bounds, fun _ => decodeRR_bounds⟩
+
+/-- A section decoded with count `k` has exactly `k` entries, whatever the item decoder. -/
+theorem C03_many_length {α : Type} (dec : Nat → Except DErr (α × Nat)) (k pos : Nat) (xs : List α)
+    (e : Nat) (h : decodeMany dec k pos = .ok (xs, e)) : xs.length = k :=
+  decodeMany_length k h
+
+/-- A question section / record section of count `k` starting inside the buffer consumes at least
+    `k` octets and ends inside the buffer. -/
+theorem C03_section_positions (id : Nat) (buf : List UInt8) (k pos e : Nat) (hpos : pos ≤ buf.length) :
+    (∀ qs, decodeMany (decodeQuestion id buf) k pos = .ok (qs, e) → pos + k ≤ e ∧ e ≤ buf.length) ∧
+    (∀ rs, decodeMany (decodeRR id buf) k pos = .ok (rs, e) → pos + k ≤ e ∧ e ≤ buf.length) := by
+  constructor
+  · intro qs h
+    have := decodeMany_bounds (N := buf.length) (fun _ _ _ => decodeQuestion_bounds) k h
+    exact ⟨this.1, this.2 hpos⟩
+  · intro rs h
+    have := decodeMany_bounds (N := buf.length) (fun _ _ _ => decodeRR_bounds) k h
+    exact ⟨this.1, this.2 hpos⟩
+
+/-- In a decoded message the four sections are exactly as long as the big-endian counts at
+    offsets 4, 6, 8 and 10 of the header say, the header ID is the first two octets, and the
+    buffer holds at least the 12 header octets. -/
+theorem C03_section_counts (buf : List UInt8) (m : Message) (h : decodeMessage buf = .ok m) :
+    12 ≤ buf.length ∧
+    nextU16 buf 0 = some (m.header.id, 2) ∧
+    nextU16 buf 4 = some (m.questions.length, 6) ∧
+    nextU16 buf 6 = some (m.answers.length, 8) ∧
+    nextU16 buf 8 = some (m.authority.length, 10) ∧
+    nextU16 buf 10 = some (m.additional.length, 12) := by
+  obtain ⟨id, f1, f2, qd, an, ns, ar, p8, p9, p10, p11, h1, _, _, h4, h5, h6, h7, hh, h8, h9, h10,
+    h11⟩ := decodeMessage_ok h
+  rw [decodeMany_length _ h8, decodeMany_length _ h9, decodeMany_length _ h10,
+    decodeMany_length _ h11, hh]
+  obtain ⟨hlt, _, _⟩ := nextU16_some h7
+  exact ⟨by omega, h1, h4, h5, h6, h7⟩
+
+/-- A successfully decoded record is NAME, TYPE, CLASS, TTL, RDLENGTH (big-endian, in that order)
+    followed by RDATA fields laid out as the type's layout says, and the RDATA fields consumed
+    exactly RDLENGTH octets: the record ends at `RDLENGTH-offset + 2 + RDLENGTH`. -/
+theorem C03_rdlength_exact (id : Nat) (buf : List UInt8) (pos : Nat) (rr : RR) (e : Nat)
+    (h : decodeRR id buf pos = .ok (rr, e)) :
+    ∃ p1 rdlength,
+      decodeName id buf pos = .ok (rr.name, p1) ∧
+      nextU16 buf p1 = some (rr.rtype, p1 + 2) ∧
+      nextU16 buf (p1 + 2) = some (rr.rclass, p1 + 4) ∧
+      nextU32 buf (p1 + 4) = some (rr.ttl, p1 + 8) ∧
+      nextU16 buf (p1 + 8) = some (rdlength, p1 + 8 + 2) ∧
+      decodeFields id buf rdlength (decodeLayoutOf rr.rtype) (p1 + 8 + 2) = .ok (rr.fields, e) ∧
+      e = p1 + 8 + 2 + rdlength ∧ e ≤ buf.length := by
+  obtain ⟨p1, rdlength, h1, h2, h3, h4, h5, h6, h7⟩ := decodeRR_ok h
+  exact ⟨p1, rdlength, h1, h2, h3, h4, h5, h6, h7, (decodeRR_bounds h).2⟩
+
+/-- A successfully decoded question is NAME, QTYPE, QCLASS and nothing more. -/
+theorem C03_question_layout (id : Nat) (buf : List UInt8) (pos : Nat) (q : Question) (e : Nat)
+    (h : decodeQuestion id buf pos = .ok (q, e)) :
+    ∃ p1, decodeName id buf pos = .ok (q.name, p1) ∧
+      nextU16 buf p1 = some (q.qtype, p1 + 2) ∧
+      nextU16 buf (p1 + 2) = some (q.qclass, p1 + 4) ∧ e = p1 + 4 :=
+  decodeQuestion_ok h
+
+/-! ## 3. Soundness of the name decoder against the grammar -/
+
+/-- Whatever the loop accepts is a grammatical name: the labels and length it adds to its
+    accumulators are those of a `WireName` standing at `pos`, and the total is within 255. -/
+theorem C03_name_sound (id : Nat) (buf : List UInt8) (start pos len : Nat) (labels : List Label)
+    (n : Name) (e : Nat) (h : decodeNameLoop id buf start pos len labels = .ok (n, e)) :
+    ∃ ls l, WireName buf start pos ls l e ∧ n.labels = labels ++ ls ∧ n.len = len + l ∧
+      n.len ≤ 255 :=
+  decodeNameLoop_sound id buf start pos len labels n e h
+
+/-- `decodeName` returns the labels, the length and the end position the grammar assigns. -/
+theorem C03_decodeName_sound (id : Nat) (buf : List UInt8) (pos : Nat) (n : Name) (e : Nat)
+    (h : decodeName id buf pos = .ok (n, e)) :
+    WireName buf pos pos n.labels n.len e ∧ n.len ≤ 255 :=
+  decodeName_sound h
+
+/-! ## 4. Decoded names are well-formed -/
+
+/-- Every name of the grammar has the `from_labels` shape (non-empty, ends in the root label, no
+    other empty label), lower-cased labels of at most 63 octets, and `len` = encoded length. -/
+theorem C03_wirename_wf (buf : List UInt8) (s p : Nat) (ls : List Label) (l e : Nat)
+    (h : WireName buf s p ls l e) :
+    LabelsShape ls ∧ (∀ x ∈ ls, LabelOK x) ∧ l = ls.length + sumLen ls :=
+  h.wf
+
+/-- Names that come off the wire are well-formed. -/
+theorem C03_name_wf (id : Nat) (buf : List UInt8) (pos : Nat) (n : Name) (e : Nat)
+    (h : decodeName id buf pos = .ok (n, e)) : NameWF n := by
+  obtain ⟨hw, hle⟩ := decodeName_sound h
+  obtain ⟨h1, h2, h3⟩ := hw.wf
+  exact ⟨h1, h2, h3, by rw [dml]; exact hle⟩
+
+/-- Every name field inside decoded RDATA is well-formed too. -/
+theorem C03_field_name_wf (id : Nat) (buf : List UInt8) (rdlength : Nat) (f : Field) (pos : Nat)
+    (n : Name) (e : Nat) (h : decodeField id buf rdlength f pos = .ok (.name n, e)) : NameWF n := by
+  cases f with
+  | name c =>
+    obtain ⟨⟨n', p⟩, hx, hv⟩ := Except_map_ok h
+    cases hv
+    exact C03_name_wf id buf pos _ _ hx
+  | u16 => obtain ⟨⟨n', p⟩, _, hv⟩ := Except_map_ok h; cases hv
+  | u32 => obtain ⟨⟨n', p⟩, _, hv⟩ := Except_map_ok h; cases hv
+  | a => obtain ⟨⟨n', p⟩, _, hv⟩ := Except_map_ok h; cases hv
+  | aaaa => obtain ⟨⟨n', p⟩, _, hv⟩ := Except_map_ok h; cases hv
+  | «opaque» => obtain ⟨⟨n', p⟩, _, hv⟩ := Except_map_ok h; cases hv
+
+/-- All owner names of a decoded message (question names and record names of the three record
+    sections) are well-formed. -/
+theorem C03_message_names_wf (buf : List UInt8) (m : Message) (h : decodeMessage buf = .ok m) :
+    (∀ q ∈ m.questions, NameWF q.name) ∧ (∀ r ∈ m.answers, NameWF r.name) ∧
+    (∀ r ∈ m.authority, NameWF r.name) ∧ (∀ r ∈ m.additional, NameWF r.name) := by
+  obtain ⟨id, f1, f2, qd, an, ns, ar, p8, p9, p10, p11, _, _, _, _, _, _, _, _, h8, h9, h10,
+    h11⟩ := decodeMessage_ok h
+  have hrr : ∀ {k p} {rs : List RR} {e}, decodeMany (decodeRR id buf) k p = .ok (rs, e) →
+      ∀ r ∈ rs, NameWF r.name := by
+    intro k p rs e hm r hr
+    obtain ⟨p0, p', hd⟩ := decodeMany_mem k hm r hr
+    obtain ⟨p1, _, hn, _⟩ := decodeRR_ok hd
+    exact C03_name_wf id buf p0 r.name p1 hn
+  refine ⟨?_, hrr h9, hrr h10, hrr h11⟩
+  intro q hq
+  obtain ⟨p0, p', hd⟩ := decodeMany_mem qd h8 q hq
+  obtain ⟨p1, hn, _⟩ := decodeQuestion_ok hd
+  exact C03_name_wf id buf p0 q.name p1 hn
+
+/-! ## 5. Completeness: the decoder accepts every grammatical name within the length limit -/
+
+/-- Every `WireName` whose length keeps the accumulated total within 255 is accepted, with the
+    labels, length and end position the grammar assigns. -/
+theorem C03_name_complete (id : Nat) (buf : List UInt8) (start pos : Nat) (ls : List Label)
+    (l e len : Nat) (labels : List Label) (h : WireName buf start pos ls l e)
+    (hle : len + l ≤ 255) :
+    decodeNameLoop id buf start pos len labels = .ok (⟨labels ++ ls, len + l⟩, e) :=
+  decodeNameLoop_complete id h len labels hle
+
+/-- "Accepts exactly": `decodeName` succeeds with `(n, e)` iff the grammar puts the name `n`
+    (labels and length) at `pos`, ending at `e`, and the name is at most 255 octets long. -/
+theorem C03_decodeName_iff (id : Nat) (buf : List UInt8) (pos : Nat) (n : Name) (e : Nat) :
+    decodeName id buf pos = .ok (n, e) ↔ WireName buf pos pos n.labels n.len e ∧ n.len ≤ 255 := by
+  constructor
+  · exact decodeName_sound
+  · intro ⟨hw, hle⟩
+    have := decodeNameLoop_complete id hw 0 [] (by omega)
+    rw [List.nil_append, Nat.zero_add] at this
+    exact this
+
+/-- A rejected name is not in the grammar (within the 255-octet limit): rejection is never
+    spurious. -/
+theorem C03_decodeName_rejects (id : Nat) (buf : List UInt8) (pos : Nat) (err : DErr)
+    (h : decodeName id buf pos = .error err) :
+    ¬ ∃ ls l e, WireName buf pos pos ls l e ∧ l ≤ 255 := by
+  intro ⟨ls, l, e, hw, hle⟩
+  have := decodeNameLoop_complete id hw 0 [] (by omega)
+  unfold decodeName at h
+  rw [this] at h
+  cases h
+
+/-- Whether and what a name decodes to does not depend on the header ID (the ID only labels
+    errors). -/
+theorem C03_decodeName_id_irrelevant (id id' : Nat) (buf : List UInt8) (pos : Nat) (n : Name)
+    (e : Nat) (h : decodeName id buf pos = .ok (n, e)) : decodeName id' buf pos = .ok (n, e) :=
+  (C03_decodeName_iff id' buf pos n e).mpr ((C03_decodeName_iff id buf pos n e).mp h)
+
+/-- "Accepts exactly", question level: a question decodes to `(q, e)` iff NAME, QTYPE, QCLASS
+    stand at `pos` in that order and `e` is the offset after QCLASS. -/
+theorem C03_question_iff (id : Nat) (buf : List UInt8) (pos : Nat) (q : Question) (e : Nat) :
+    decodeQuestion id buf pos = .ok (q, e) ↔
+      ∃ p1, decodeName id buf pos = .ok (q.name, p1) ∧
+        nextU16 buf p1 = some (q.qtype, p1 + 2) ∧
+        nextU16 buf (p1 + 2) = some (q.qclass, p1 + 4) ∧ e = p1 + 4 :=
+  ⟨decodeQuestion_ok, fun ⟨_, hn, h2, h3, he⟩ => decodeQuestion_of hn h2 h3 he⟩
+
+/-- "Accepts exactly", record level: a record decodes to `(rr, e)` iff NAME TYPE CLASS TTL RDLENGTH
+    stand at `pos`, the RDATA fields of the type's layout decode from there, and they end exactly
+    RDLENGTH octets after the RDLENGTH field. -/
+theorem C03_rr_iff (id : Nat) (buf : List UInt8) (pos : Nat) (rr : RR) (e : Nat) :
+    decodeRR id buf pos = .ok (rr, e) ↔
+      ∃ p1 rdlength,
+        decodeName id buf pos = .ok (rr.name, p1) ∧
+        nextU16 buf p1 = some (rr.rtype, p1 + 2) ∧
+        nextU16 buf (p1 + 2) = some (rr.rclass, p1 + 4) ∧
+        nextU32 buf (p1 + 4) = some (rr.ttl, p1 + 8) ∧
+        nextU16 buf (p1 + 8) = some (rdlength, p1 + 10) ∧
+        decodeFields id buf rdlength (decodeLayoutOf rr.rtype) (p1 + 10) = .ok (rr.fields, e) ∧
+        e = p1 + 10 + rdlength :=
+  ⟨decodeRR_ok, fun ⟨_, _, hn, h2, h3, h4, h5, hf, he⟩ => decodeRR_of hn h2 h3 h4 h5 hf he⟩
+
+/-- "Accepts exactly", message level: a buffer decodes to `m` iff it starts with the 12-octet
+    header (ID, two flag octets, four big-endian counts) and the four sections follow back to back,
+    each decoded with its count. -/
+theorem C03_message_iff (buf : List UInt8) (m : Message) :
+    decodeMessage buf = .ok m ↔
+      ∃ id f1 f2 qd an ns ar p8 p9 p10 p11,
+        nextU16 buf 0 = some (id, 2) ∧ nextU8 buf 2 = some (f1, 3) ∧ nextU8 buf 3 = some (f2, 4) ∧
+        nextU16 buf 4 = some (qd, 6) ∧ nextU16 buf 6 = some (an, 8) ∧
+        nextU16 buf 8 = some (ns, 10) ∧ nextU16 buf 10 = some (ar, 12) ∧
+        m.header = decodeFlags id f1 f2 ∧
+        decodeMany (decodeQuestion id buf) qd 12 = .ok (m.questions, p8) ∧
+        decodeMany (decodeRR id buf) an p8 = .ok (m.answers, p9) ∧
+        decodeMany (decodeRR id buf) ns p9 = .ok (m.authority, p10) ∧
+        decodeMany (decodeRR id buf) ar p10 = .ok (m.additional, p11) :=
+  ⟨decodeMessage_ok, fun ⟨_, _, _, _, _, _, _, _, _, _, _, h1, h2, h3, h4, h5, h6, h7, hh, h8, h9,
+    h10, h11⟩ => decodeMessage_of h1 h2 h3 h4 h5 h6 h7 hh h8 h9 h10 h11⟩
+
+/-! ## 6. Pointer nesting depth -/
+
+/-- Each pointer target is strictly before the start of the name containing the pointer, so the
+    nesting depth of pointer expansion is at most the start offset … -/
+theorem C03_pointer_depth (buf : List UInt8) (start pos d : Nat)
+    (h : WireNameDepth buf start pos d) : d ≤ start :=
+  h.le_start
+
+/-- … and a pointer target is a 14-bit offset. -/
+theorem C03_pointer_14bit (b lo : UInt8) : (b.toNat % 64) * 256 + lo.toNat < 16384 :=
+  ptr_lt_16384 b lo
+
+/-- Every successful run of the name decoder has a pointer-nesting depth (which by
+    `C03_pointer_depth` is at most `start`). -/
+theorem C03_decoder_depth (id : Nat) (buf : List UInt8) (start pos len : Nat) (labels : List Label)
+    (n : Name) (e : Nat) (h : decodeNameLoop id buf start pos len labels = .ok (n, e)) :
+    ∃ d, WireNameDepth buf start pos d ∧ d ≤ start := by
+  obtain ⟨ls, l, hw, _⟩ := decodeNameLoop_sound id buf start pos len labels n e h
+  obtain ⟨d, hd⟩ := hw.depth
+  exact ⟨d, hd, hd.le_start⟩
+
+/-! ## 7. The grammar is deterministic -/
+
+/-- At a given offset (and start bound) the grammar assigns at most one name, length and end
+    position, so any decoder that follows RFC 1035 §4.1.4 must read what this one reads. -/
+theorem C03_name_functional (buf : List UInt8) (s p : Nat) (ls ls' : List Label) (l l' e e' : Nat)
+    (h : WireName buf s p ls l e) (h' : WireName buf s p ls' l' e') :
+    ls = ls' ∧ l = l' ∧ e = e' :=
+  h.functional h'
+
+
+/-! ## Non-vacuity: concrete buffers
+
+  `decodeNameLoop` is defined by well-founded recursion, which the kernel does not unfold, so the
+  decoder examples are closed by `simp` with the defining equations (or by the completeness
+  theorem) rather than by `decide`; the grammar examples are explicit derivations. -/
+
+/-- group 1: one octet is `CompletelyBusted` (no ID) … -/
+example : decodeMessage [(0x12 : UInt8)] = .error .completelyBusted :=
+  C03_short_is_busted _ (by decide)
+
+/-- … a truncated header reports the ID 0x1234 = 4660 … -/
+example : decodeMessage [(0x12 : UInt8), 0x34, 0] = .error (.headerTooShort 4660) := by
+  simp [decodeMessage, nextU16, nextU8]
+
+/-- … and so does a name error deep inside the question section (label of 3 octets, 1 present). -/
+example : decodeMessage [(0x12 : UInt8), 0x34, 1, 0, 0, 1, 0, 0, 0, 0, 0, 0, 3, 97] =
+    .error (.domainTooShort 4660) := by
+  simp [decodeMessage, nextU16, nextU8, decodeMany, decodeQuestion, decodeName, decodeNameLoop, lml]
+
+/-- group 1: the hypothesis and conclusion of `C03_id_on_error` are met together. -/
+example : (DErr.domainTooShort 4660).id = some ((0x12 : UInt8).toNat * 256 + (0x34 : UInt8).toNat) := by
   decide
+
+/-- groups 3/5/7: "A." at offset 0 is the name `a.` (lower-cased), 3 octets, ending at 3 … -/
+example : WireName [(1 : UInt8), 65, 0, 1, 66, 192, 0] 0 0 [[97], []] 3 3 :=
+  WireName.label (sz := 1) (by decide) (by decide) (by decide) (by decide) (WireName.root (by decide))
+
+/-- … and at offset 3 stands "B" followed by a pointer to offset 0: the name `b.a.`, 5 octets,
+    whose in-place encoding ends at 7. -/
+example : WireName [(1 : UInt8), 65, 0, 1, 66, 192, 0] 3 3 [[98], [97], []] 5 7 :=
+  WireName.label (sz := 1) (by decide) (by decide) (by decide) (by decide)
+    (WireName.ptr (b := 192) (lo := 0) (by decide) (by decide) (by decide) (by decide)
+      (WireName.label (sz := 1) (by decide) (by decide) (by decide) (by decide)
+        (WireName.root (by decide))))
+
+/-- groups 3/5: the decoder reads exactly that (via the completeness theorem) … -/
+example : decodeName 7 [(1 : UInt8), 65, 0, 1, 66, 192, 0] 3 = .ok (⟨[[98], [97], []], 5⟩, 7) :=
+  (C03_decodeName_iff 7 _ 3 ⟨[[98], [97], []], 5⟩ 7).mpr
+    ⟨WireName.label (sz := 1) (by decide) (by decide) (by decide) (by decide)
+      (WireName.ptr (b := 192) (lo := 0) (by decide) (by decide) (by decide) (by decide)
+        (WireName.label (sz := 1) (by decide) (by decide) (by decide) (by decide)
+          (WireName.root (by decide)))), by decide⟩
+
+/-- … and directly from the defining equations. -/
+example : decodeName 7 [(1 : UInt8), 65, 0, 1, 66, 192, 0] 3 = .ok (⟨[[98], [97], []], 5⟩, 7) := by
+  simp [decodeName, decodeNameLoop, finishName, lml, dml, lowerByte]
+
+/-- group 4: the decoded name is well-formed (instance of `C03_name_wf`, checked independently). -/
+example : NameWF ⟨[[98], [97], []], 5⟩ := by
+  refine ⟨by decide, ?_, by decide, by decide⟩
+  intro l hl
+  simp only [List.mem_cons, List.not_mem_nil, or_false] at hl
+  rcases hl with rfl | rfl | rfl <;> exact ⟨by decide, by decide⟩
+
+/-- group 6: that derivation has pointer depth 1 ≤ start = 3. -/
+example : WireNameDepth [(1 : UInt8), 65, 0, 1, 66, 192, 0] 3 3 1 :=
+  WireNameDepth.label (sz := 1) (by decide) (by decide) (by decide)
+    (WireNameDepth.ptr (b := 192) (lo := 0) (by decide) (by decide) (by decide) (by decide)
+      (WireNameDepth.label (sz := 1) (by decide) (by decide) (by decide)
+        (WireNameDepth.root (by decide))))
+
+/-- groups 3/6: a pointer to itself (or forwards) is rejected, not followed. -/
+example : decodeName 7 [(192 : UInt8), 0] 0 = .error (.domainPointerInvalid 7) := by
+  simp [decodeName, decodeNameLoop, lml]
+
+/-- group 3: octets 64..191 are not a label length. -/
+example : decodeName 7 [(64 : UInt8), 0] 0 = .error (.domainLabelInvalid 7) := by
+  simp [decodeName, decodeNameLoop, lml]
+
+/-- group 2: a whole response (ID 0x1234, QR RD RA, one question `A. IN A`, one answer whose name
+    is a pointer to offset 12, TTL 60, RDLENGTH 4, address 10.0.0.1) decodes to one question and
+    one answer, as the counts say. -/
+example : decodeMessage
+    [(0x12 : UInt8), 0x34, 0x81, 0x80, 0, 1, 0, 1, 0, 0, 0, 0,
+     1, 65, 0, 0, 1, 0, 1,
+     192, 12, 0, 1, 0, 1, 0, 0, 0, 60, 0, 4, 10, 0, 0, 1] =
+    .ok { header := { id := 4660, isResponse := true, opcode := 0, isAuthoritative := false,
+                      isTruncated := false, recursionDesired := true, recursionAvailable := true,
+                      rcode := 0 }
+          questions := [{ name := ⟨[[97], []], 3⟩, qtype := 1, qclass := 1 }]
+          answers := [{ name := ⟨[[97], []], 3⟩, rtype := 1, fields := [.a 167772161],
+                        rclass := 1, ttl := 60 }]
+          authority := [], additional := [] } := by
+  simp [decodeMessage, nextU16, nextU8, nextU32, decodeMany, decodeQuestion, decodeRR, decodeName,
+    decodeNameLoop, finishName, lml, dml, lowerByte, decodeFields, decodeField, decodeLayoutOf,
+    rtypeVariant, lookupNat, lookupStr, recordTypeFromU16, rdataDecodeLayout, orRRShort, Except.map,
+    decodeFlags, testBit, opcodeFromU8, rcodeFromU8, HEADER_MASK_QR, HEADER_MASK_OPCODE,
+    HEADER_OFFSET_OPCODE, HEADER_MASK_AA, HEADER_MASK_TC, HEADER_MASK_RD, HEADER_MASK_RA,
+    HEADER_MASK_RCODE, HEADER_OFFSET_RCODE, opcodeMask, rcodeMask]
+
+/-- group 2 (`C03_rdlength_exact`): the same record with RDLENGTH 5 (one octet more than an
+    address occupies) is rejected even though the octet is there. -/
+example : decodeRR 4660
+    [(1 : UInt8), 65, 0, 0, 1, 0, 1, 0, 0, 0, 60, 0, 5, 10, 0, 0, 1, 0] 0 =
+    .error (.resourceRecordInvalid 4660) := by
+  simp [nextU16, nextU32, decodeRR, decodeName, decodeNameLoop, finishName, lml, dml, lowerByte,
+    decodeFields, decodeField, decodeLayoutOf, rtypeVariant, lookupNat, lookupStr,
+    recordTypeFromU16, rdataDecodeLayout, orRRShort, Except.map]
 
 end Resolved
